@@ -138,13 +138,27 @@ func VerifC03_Raw() {
 func VerifC03_Constructed() {
 	mode := vInt("mode", 0, 2)
 	um := vInt("um", 1, 2)
-	shape := vInt("shape", 0, 8)
+	shape := vInt("shape", 0, 10)
 	p := positional("p", "c", "sub")
 	q := positional("q", "c", "sub")
 	vAssume(p != q)
 	opt, _, _ := rawDefinition(mode, um, false)
+	if shape >= 9 {
+		// require-order set on the command only
+		opt = New()
+		setMode(opt, mode)
+		setUnknown(opt, um)
+		opt.Bool("b", false)
+		c := opt.NewCommand("c", "")
+		c.SetRequireOrder()
+		c.Bool("x", false)
+	}
 	var args, want []string
 	switch shape {
+	case 9:
+		args, want = []string{p, "--typo", "c", q, "--x", p}, []string{p, "--typo", q, "--x", p}
+	case 10:
+		args, want = []string{p, "c", "--nope", "--x"}, []string{p, "--nope", "--x"}
 	case 0:
 		args, want = []string{p, "c", q}, []string{p, q}
 	case 1:
